@@ -203,3 +203,132 @@ def c15(tier):
 
 
 PROPS = {"C11": c11, "C12": c12, "C13": c13, "C14": c14, "C15": c15, "C17": c17, "C18": c18}
+
+
+# =========================================================================== e2e
+
+def e2e_check(pid, tier, scenarios, trace_spec, corrupt, note, mc_cfgs=(), threads=2,
+              case_of=None, extra_cov=None, runs=1):
+    """End-to-end procedure: model-check the property's model, run the scenarios against
+    the real endpoints, validate every scenario history with the property's trace spec."""
+    import scen  # noqa: F401
+    t0 = time.time()
+    verdict = vlib.Verdict(pid)
+    cov = {"states": 0, "transitions": 0, "traces_validated_against_impl": 0, "samples": [],
+           "model_checking": [], "scenarios": 0, "events": 0, "repo_head": vlib.repo_head(),
+           "exhaustive": False}
+    for spec, cfg in mc_cfgs:
+        r = vlib.tlc_mc(spec, cfg, "%s-%s" % (pid, cfg), workers=4)
+        cov["model_checking"].append({"spec": spec, "cfg": cfg, "ok": r["ok"],
+                                      "generated": r["generated"], "distinct": r["distinct"],
+                                      "wall_s": r["wall_s"]})
+        cov["states"] += r["distinct"]
+        cov["transitions"] += r["generated"]
+        if not r["ok"]:
+            raise vlib.ToolError("model %s/%s violated" % (spec, cfg))
+    wd = vlib.workdir(pid)
+    try:
+        binary = vlib.build_harness("debug")
+        scn_path = os.path.join(wd, "scenarios.ndjson")
+        with open(scn_path, "w") as f:
+            for s in scenarios:
+                f.write(json.dumps(s) + "\n")
+        by_name = {s["scn"]: s for s in scenarios}
+        for run in range(runs):
+            trace = os.path.join(wd, "trace%d.ndjson" % run)
+            th = threads if run == 0 else 1
+            vlib.run_harness(binary, ["e2e", "--scenarios", scn_path, "--out", trace,
+                                      "--threads", str(th)], timeout=3000)
+            total, mism, states = vlib.tlc_validate(trace, "%s-e2e%d" % (pid, run), spec=trace_spec,
+                                                    cfg="E2E.cfg", chunk_lines=10**9, parallel=1)
+            cov["traces_validated_against_impl"] += len(scenarios)
+            cov["scenarios"] += len(scenarios)
+            cov["events"] += total
+            cov["states"] += states
+            cov["transitions"] += total
+            starts = vlib.read_lines(trace, mism)
+            for ln in mism:
+                name = starts[ln].get("scn")
+                hist = scenario_history(trace, name)
+                case = {"scn_meta": json.dumps(by_name.get(name, {}).get("meta", {}), sort_keys=True)}
+                if case_of:
+                    case.update(case_of(by_name.get(name, {}), hist))
+                verdict.reject(case, {"scenario": by_name.get(name), "history": hist,
+                                      "runtime_threads": th})
+            if run == 0:
+                cov["samples"] = [vlib._shorten(scenarios[0], 12)] + vlib.sample_lines(trace, 3)
+                n = e2e_selftest(trace, pid, trace_spec, corrupt)
+                cov["binding_selftest_scenarios_rejected"] = n
+        if extra_cov:
+            cov.update(extra_cov)
+        rc = verdict.finish()
+        vlib.write_evidence(pid, tier, "model_checking", cov, ASSUME_COMMON + note,
+                            time.time() - t0, len(verdict.violations))
+        return rc
+    finally:
+        vlib.cleanup(wd)
+
+
+def scenario_history(trace, name):
+    out = []
+    with open(trace) as f:
+        for line in f:
+            if ('"scn":"%s"' % name) in line:
+                out.append(vlib._shorten(json.loads(line), 80))
+    return out
+
+
+def e2e_selftest(trace, pid, trace_spec, corrupt, want=6):
+    """Corrupt one observed field in up to `want` scenarios; each must be rejected."""
+    wd = vlib.workdir("self-" + pid)
+    try:
+        path = os.path.join(wd, "corrupt.ndjson")
+        scen_lines, cur, n = [], [], 0
+        with open(trace) as f, open(path, "w") as g:
+            for line in f:
+                e = json.loads(line)
+                cur.append(e)
+                if e.get("ev") == "end":
+                    if n < want:
+                        c = corrupt(cur)
+                        if c is not None:
+                            for x in c:
+                                g.write(json.dumps(x) + "\n")
+                            n += 1
+                    cur = []
+        if n == 0:
+            raise vlib.ToolError("binding self-test: nothing to corrupt for %s" % pid)
+        total, mism, _ = vlib.tlc_validate(path, "self-" + pid, spec=trace_spec, cfg="E2E.cfg",
+                                           chunk_lines=10**9, parallel=1)
+        if len(mism) != n:
+            raise vlib.ToolError("binding self-test failed for %s: corrupted %d scenarios, %d rejected"
+                                 % (pid, n, len(mism)))
+        return n
+    finally:
+        vlib.cleanup(wd)
+
+
+def _corrupt_c04(events):
+    ev = json.loads(json.dumps(events))
+    for e in ev:
+        if e.get("ev") == "op_done" and e.get("res") == "err" and isinstance(e.get("err"), dict):
+            if e["err"].get("k") == "ApplicationClosed":
+                e["err"]["code"] = [e["err"]["code"][0], e["err"]["code"][1] + 1]
+                return ev
+            if e["err"].get("k") in ("LocalH3Error", "LocallyClosed") and e.get("op") in ("accept_uni", "accept_bi", "recv_dgram"):
+                e["err"] = {"k": "ApplicationClosed", "code": [0, 0], "reason": []}
+                return ev
+    return None
+
+
+def c04(tier):
+    import scen
+    return e2e_check(
+        "C04", tier, scen.c04(tier, vlib.seed()), "C04Trace.tla", _corrupt_c04,
+        ["termination styles x codes x reasons x life-cycle points x roles against a raw QUIC peer; "
+         "expected cause computed by Session!SessionOutcome from the bytes the peer actually wrote",
+         "a capsule is carried in one DATA frame; steps are separated by 30-200 ms barriers"],
+        mc_cfgs=[("WireMC.tla", "WireMC_quick.cfg")])
+
+
+PROPS["C04"] = c04
